@@ -66,6 +66,15 @@ let handle cmd =
       (* _total_stress_point: friction velocity 0 (U10 = 0) gives a NaN direction *)
       let (u, d) = u10_from_bulk_rate_point ff (fun u _ -> if u = 0.0 then None else nd) diriter target guess gdir in
       pof u ^ " " ^ pof d
+  | "toyF" ->
+      let kind = rd_nat () in
+      let amp = rd_float () in let a = rd_float () in let b = rd_float () in
+      let q = rd_float () in let d0 = rd_float () in
+      let target = rd_float () in let dir = rd_float () in let u = rd_float () in
+      let th = rd_list rd_float in let df = rd_list rd_float in let dth = rd_list rd_float in
+      let e = rd_field () in let tf = rd_field () in
+      let g = { g_theta = th; g_df = df; g_dth = dth } in
+      pof (balance_fn (toy_field kind amp a b q d0 e dir) tf g target u)
   | "toypoints" ->
       let kind = rd_nat () in
       let amp = rd_float () in let a = rd_float () in let b = rd_float () in
